@@ -218,6 +218,9 @@ func init() {
 			k.PNilOptArg = 12
 			k.PNamedSlice = 18
 			k.PDecoOrphan = 10 // decorators of keys / groups that nothing provides (differential oracle only)
+			// user functions may return errors (never panic) so that failed
+			// Invokes of every kind reach Visualize(VisualizeError)
+			k.NoFaults, k.PFault, k.PPanic, k.PErr = false, 10, 0, 40
 			k.PSide = 5
 			k.MaxOps = 20
 			return GenCase(t, scale(k, thorough))
